@@ -84,11 +84,11 @@ func TestVerifWiringC17(t *testing.T) {
 	})}
 	go backend.Serve(backendLn)
 	defer backend.Close()
-	colC17.Mandatory("signals:2+", "in-flight-upload", "in-flight-upload+repeated-signal")
+	colC17.Mandatory("signals:2+", "in-flight-upload", "in-flight-upload+repeated-signal", "idle-connections:10+")
 
 	vstat.Run(t, vstat.Spec[sigScript]{Col: colC17, Quick: 24, Thorough: 400, ScheduleDependent: true,
 		Gen: func(t *rapid.T) sigScript {
-			s := sigScript{InFlight: rapid.IntRange(0, 2).Draw(t, "inflight") != 0, FinishMs: rapid.SampledFrom([]int{50, 400, 1200}).Draw(t, "finish"), Idle: rapid.IntRange(0, 2).Draw(t, "idle")}
+			s := sigScript{InFlight: rapid.IntRange(0, 2).Draw(t, "inflight") != 0, FinishMs: rapid.SampledFrom([]int{50, 400, 1200}).Draw(t, "finish"), Idle: rapid.SampledFrom([]int{0, 1, 2, 10, 14}).Draw(t, "idle")}
 			n := rapid.SampledFrom([]int{1, 2, 2, 3}).Draw(t, "nsig")
 			for i := 0; i < n; i++ {
 				s.Signals = append(s.Signals, rapid.SampledFrom([]string{"INT", "TERM"}).Draw(t, "sig"))
@@ -236,8 +236,9 @@ func TestVerifWiringC17(t *testing.T) {
 					} else if !strings.Contains(logs.String(), "Server closed") {
 						viol = vstat.Violf("binary|no-server-closed-error", "%s: Run() returned without the 'server closed' error\n%s", desc, tailStr(logs.String()))
 					}
-				case <-time.After(30 * time.Second):
-					viol = vstat.Violf("binary|process-still-running", "%s: 30 s after the signal, with nothing in flight any more, the process is still running\n%s", desc, tailStr(logs.String()))
+				case <-time.After(8 * time.Second):
+					// "within seconds": idle connections are closed at once whatever their number, nothing is in flight
+					viol = vstat.Violf("binary|process-still-running", "%s: 8 s after the last signal / the end of the last exchange, with nothing in flight any more, the process is still running\n%s", desc, tailStr(logs.String()))
 				}
 			}
 			// idle keep-alive connections were closed by the server
@@ -256,6 +257,9 @@ func TestVerifWiringC17(t *testing.T) {
 				return viol
 			}
 			cl := []string{fmt.Sprintf("signals:%d", len(s.Signals))}
+			if len(idle) >= 10 {
+				cl = append(cl, "idle-connections:10+")
+			}
 			if len(s.Signals) >= 2 {
 				cl = append(cl, "signals:2+")
 			}
